@@ -152,7 +152,7 @@ func runC01(e *core.Env) error {
 				// the client's caches ON: a step that fails after loading leaves its blocks in the segment
 				// cache, and the retry attaches logs / receipts / traces to those same blocks again.
 				// (with a configured start only: a cached head may lag, which moves a head-mode start)
-				w.client = jrpc2.New(w.node.URL()).WithMaxReads(2 + rr.Intn(3)).WithPollDuration(time.Hour)
+				w.client = jrpc2.New(w.node.URL()+"/a", w.node.URL()+"/b").WithMaxReads(2 + rr.Intn(3)).WithPollDuration(time.Hour) // two URLs: the client rotates
 				w.tags["caching-client"]++
 			} else {
 				useCache = false
@@ -311,7 +311,7 @@ func runC01(e *core.Env) error {
 func c01Binary(e *core.Env) error {
 	defer removeShovelBinary()
 	r := e.Rand
-	for rep := 0; rep < e.N(1, 4) && !e.OverBudget(); rep++ {
+	for rep := 0; rep < e.N(2, 4) && !e.OverBudget(); rep++ {
 		rr := r.Fork()
 		chain := transferChain(6+rr.Intn(3), uint64(1+rr.Intn(1000)))
 		w, err := newWorld(e, chain)
@@ -328,6 +328,12 @@ func c01Binary(e *core.Env) error {
 			igDocs = append(igDocs, igFileDoc(igs[i], "src1", start))
 		}
 		doc := func(pgurl string) string {
+			// every other repetition: the source is declared with several URLs (the client rotates through them) and
+			// learns the head over the websocket subscription instead of polling
+			if rep%2 == 1 {
+				return fmt.Sprintf(`{"pg_url": %q, "dashboard": {"root_password": "x"}, "eth_sources": [{"name": "src1", "chain_id": 7, "url": %q, "urls": [%q, %q], "ws_url": %q, "poll_duration": "40ms", "batch_size": %d, "concurrency": %d}], "integrations": [%s]}`,
+					pgurl, w.node.URL()+"/u0", w.node.URL()+"/u1", w.node.URL()+"/u2", w.node.WSURL(), batch, conc, strings.Join(igDocs, ","))
+			}
 			return fmt.Sprintf(`{"pg_url": %q, "dashboard": {"root_password": "x"}, "eth_sources": [{"name": "src1", "chain_id": 7, "url": %q, "poll_duration": "40ms", "batch_size": %d, "concurrency": %d}], "integrations": [%s]}`,
 				pgurl, w.node.URL(), batch, conc, strings.Join(igDocs, ","))
 		}
@@ -347,6 +353,10 @@ func c01Binary(e *core.Env) error {
 		verdict := "ok"
 		settle := func(what string) {
 			history = append(history, what)
+			if rep%2 == 1 { // the websocket variant: the node pushes its new head to whoever subscribed
+				w.node.AnnounceHead()
+				history = append(history, fmt.Sprintf("(ws subscribers=%d)", w.node.Subscribers()))
+			}
 			deadline := time.Now().Add(25 * time.Second)
 			for time.Now().Before(deadline) {
 				done := true
@@ -394,12 +404,19 @@ func c01Binary(e *core.Env) error {
 				verdict = "the process panicked: " + lastLines(out, 40)
 			}
 		}
+		variant := "http-poll,one-url"
+		if rep%2 == 1 {
+			variant = "ws-subscription,three-urls"
+			if strings.Contains(strings.Join(history, " "), "subscribers=0) ") && !strings.Contains(strings.Join(history, " "), "subscribers=1)") && verdict == "ok" {
+				verdict = "the source declares a ws_url and no websocket subscription was ever opened: " + strings.Join(history, " ")
+			}
+		}
 		class := ""
 		if verdict != "ok" && gojsonCrash(verdict) {
 			class = "C01.gojson_decoder_crash"
 		}
 		e.Add(core.Case{Impl: verdict, Spec: "ok", Oracles: oracles, Nontrivial: true, Class: class, Key: fmt.Sprintf("c01-binary %d %d", rep, e.Seed),
-			Tags: []string{"binary", "whole-program", fmt.Sprintf("batch=%d", batch), fmt.Sprintf("conc=%d", conc)}, Detail: map[string]any{"history": history, "batch": batch, "conc": conc, "start": start}})
+			Tags: []string{"binary", "whole-program", variant, fmt.Sprintf("batch=%d", batch), fmt.Sprintf("conc=%d", conc)}, Detail: map[string]any{"history": history, "batch": batch, "conc": conc, "start": start}})
 		w.close()
 	}
 	return nil
